@@ -1509,4 +1509,23 @@ example : callOutput exS (.atomsExtend 0 (.inl 2) (.bool true) none) = .error .v
 example : Inv (callStep exS (.atomsExtend 0 (.inr 1) (.other true) none)) := inv_callWith false _ _ (inv_reachable exOps)
 
 
+/-! ## statement audit: theorems of the last rounds instantiated with every hypothesis discharged -/
+section audit
+
+-- `viewGuard_refuses_iff` / `atypeGuard_refuses_iff`: an atype column containing 0
+example : (viewGuard "atype" 3 ⟨.int, [3], [.int 1, .int 0, .int 1]⟩ exS).1 = .error .value ↔
+    guardRefuses ("atype" = "atype") 3 ((0 : Rat) < 1) :=
+  viewGuard_refuses_iff "atype" 3 ⟨.int, [3], [.int 1, .int 0, .int 1]⟩ [1, 0, 1] exS (by decide +kernel) 0 (by decide +kernel)
+example : (atypeGuard "atype" ⟨.int, [3], [.int 1, .int 0, .int 1]⟩ exS).1 = .error .value ↔
+    guardRefuses ("atype" = "atype") 3 (∃ m, listMin ([1, 0, 1] : List Rat) = some m ∧ m < 1) :=
+  atypeGuard_refuses_iff "atype" ⟨.int, [3], [.int 1, .int 0, .int 1]⟩ [1, 0, 1] exS (by decide +kernel)
+-- `call_refused_unchanged`: both `a_id` and `index` given
+example : callWith false exS (.prop 0 ⟨some "q", some (.int 0), none, some (.int 0)⟩) = (.error .value, exS) :=
+  call_refused_unchanged false exS _ .value (by rfl)
+-- `massesSet_by_decision` / `symbolsGet_by_decision`: `exG` has 4 atom types, 2 symbols
+example : sysNatypes 0 exG = (.ok 4, (sysNatypes 0 exG).2) := Prod.ext (by decide +kernel) rfl
+example : natypes (exG.sys 0).atoms exG = (.ok 4, (natypes (exG.sys 0).atoms exG).2) := Prod.ext (by decide +kernel) rfl
+
+end audit
+
 end Atomman.C06
